@@ -45,6 +45,9 @@ class View:
             if p.endswith('*'):
                 if s.startswith(p[:-1]):
                     return True
+            elif p.startswith('*'):
+                if s.endswith(p[1:]):
+                    return True
             elif s == p or s.startswith(p + '.') or s.startswith(p + '['):
                 return True
         return False
